@@ -454,6 +454,32 @@ def read (g : Array Rat) (lay : Layout) (lines : List Bytes) : Except Err Chart 
         | .error e => .error e
         | .ok r => .ok ⟨hdr, r.1, r.2.1, r.2.2.1, r.2.2.2⟩
 
+
+/-! ### `BMSMap.read_file` -/
+
+/-- the line separators of `str.splitlines()` that are single bytes in a shift_jis file besides LF and CR:
+VT, FF, FS, GS, RS (`\x0b`, `\x0c`, `\x1c`–`\x1e`) -/
+def pyExoticSep (c : Char) : Bool :=
+  c.toNat = 11 || c.toNat = 12 || c.toNat = 28 || c.toNat = 29 || c.toNat = 30
+
+/-- `codecs.open(path, encoding="shift_jis").readlines()` = `read().splitlines(keepends=True)`, then `.strip()` per
+line (done by `read` again): the file's bytes cut at LF, CR, CRLF (one separator), VT, FF, FS, GS, RS; a trailing
+separator does not start another line.  The codec itself is not modelled (one `Char` per byte; no separator byte
+occurs inside a two-byte character). -/
+def pyLinesAux : Bytes → Bytes → List Bytes
+  | cur, [] => if cur.isEmpty then [] else [cur.reverse]
+  | cur, [c] => if c.toNat = 13 || c.toNat = 10 || pyExoticSep c then [cur.reverse] else [(c :: cur).reverse]
+  | cur, c :: d :: t =>
+    if c.toNat = 13 then
+      (if d.toNat = 10 then cur.reverse :: pyLinesAux [] t else cur.reverse :: pyLinesAux [] (d :: t))
+    else if c.toNat = 10 || pyExoticSep c then cur.reverse :: pyLinesAux [] (d :: t)
+    else pyLinesAux (c :: cur) (d :: t)
+
+def pyLines (b : Bytes) : List Bytes := pyLinesAux [] b
+
+/-- `BMSMap.read_file(path, note_channel_config)` on the bytes of the file -/
+def readFile (g : Array Rat) (lay : Layout) (bytes : Bytes) : Except Err Chart := read g lay (pyLines bytes)
+
 /-! ## writer: `BMSMap.write` -/
 
 /-- the in-memory chart the writer looks at. `holds` carry `tail = offset + length` as the double pandas computes. -/
